@@ -199,6 +199,38 @@ def build_cases(asn4: bool):
     return cases
 
 
+UNAMBIGUOUS = ('flags-optional-flipped', 'flags-transitive-flipped', 'value-')
+KNOWN_ACCEPTED = {(2, 'value-segcount-0'), (3, 'value-len16')}  # recorded findings: kept out of the pairs so that a pair has one meaning
+
+
+def build_pairs(asn4: bool):
+    """two attributes of one UPDATE malformed at once (unambiguous corruptions only: wrong flags, invalid values of the right
+    length). RFC 7606: the most severe of the two classes applies - a treat-as-withdraw attribute next to an attribute-discard
+    one still withdraws, two discards drop both attributes."""
+    cases = []
+    for base in ('v4', 'both'):
+        tl = base_tlvs(asn4, base)
+        opts = []
+        for code in sorted(tl):
+            flags, value = tl[code]
+            for cname, raw in corruptions(code, flags, value, asn4):
+                if cname.startswith(UNAMBIGUOUS) and (code, cname) not in KNOWN_ACCEPTED and CLASS.get(code) in (DISCARD, WITHDRAW):
+                    opts.append((code, cname, raw))
+        for i, (c1, n1, r1) in enumerate(opts):
+            for c2, n2, r2 in opts[i + 1 :]:
+                if c1 == c2:
+                    continue
+                if base == 'both' and (c1 + c2) % 3:
+                    continue  # a third of the pairs on the second base
+                tlvs = [r1 if c == c1 else r2 if c == c2 else rw.enc_attr(tl[c][0], c, tl[c][1]) for c in sorted(tl)]
+                mp = rw.enc_mp_reach(2, 1, ['2001:db8::1'], V6_NLRI, False) if base == 'both' else b''
+                nlri = b''.join(rw.enc_nlri(n, False) for n in V4_NLRI)
+                body = rw.enc_update_body(b'', b''.join(tlvs) + mp, nlri)
+                want = WITHDRAW if WITHDRAW in (CLASS[c1], CLASS[c2]) else DISCARD
+                cases.append({'asn4': asn4, 'base': base, 'code': c1, 'corruption': f'pair:{n1}+{NAMES.get(c2, c2)}:{n2}', 'body': body.hex(), 'control': False, 'want': want, 'codes': [c1, c2]})
+    return cases
+
+
 def make_case(asn4, base, tl, code, cname, raw, last=False, control=False, replace_mp=False):
     tlvs = []
     for c in sorted(tl):
@@ -312,7 +344,9 @@ def judge(res: Result, case, loop):
     sig = (aname, cname, case['base'], asn4)
     wit = {'case': {k: case[k] for k in ('asn4', 'base', 'code', 'corruption')}, 'body': case['body']}
     # expected class
-    if case['control']:
+    if 'want' in case:
+        want = case['want']
+    elif case['control']:
         want = None
     elif cname == 'mp-flags-transitive':
         want = WITHDRAW  # RFC 7606 3.c: wrong attribute flags -> treat-as-withdraw, also for MP_REACH
@@ -398,6 +432,14 @@ def judge(res: Result, case, loop):
             res.ok(cls, sig + ('withdrawn',))
             res.count('outcome:withdraw' + ('-dropped' if dropped else ''))
         return
+    if want == DISCARD and 'codes' in case:
+        kept = [attr_present(obs['attrs'], c, asn4) for c in case['codes']]
+        kept = [k for k in kept if k]
+        if kept and (announced or stored):
+            res.violation(f'C08/malformed-attribute-kept:pair:{aname}', f'{cls}: malformed attributes still reported ({kept}) with announced routes', wit, 'pair:discard')
+        else:
+            res.ok('pair:discard', sig + ('discard' if announced else 'withdrawn',))
+        return
     if want == DISCARD:
         if present and (announced or stored):
             res.violation(f'C08/malformed-attribute-kept:{aname}:{cname}', f'{cls}: the malformed attribute is still reported ({obs["attrs"].get(present)!r}) with announced routes', wit, cls)
@@ -426,10 +468,15 @@ def run_shard(desc):
     loop = asyncio.new_event_loop()
     asyncio.set_event_loop(loop)
     cases = build_cases(True) + build_cases(False)
+    pairs = build_pairs(True) + build_pairs(False)
     mine = [c for i, c in enumerate(cases) if i % desc['nshards'] == desc['shard']]
+    mine += [c for i, c in enumerate(pairs) if i % desc['nshards'] == desc['shard']]
+    # one process decodes them all: the order (which malformed message follows which good one) changes with the seed
+    random.Random(desc['seed'] * 1543 + desc['shard']).shuffle(mine)
     for case in mine:
         judge(res, case, loop)
     res.extra['enumerated_cases'] = len(mine)
+    res.extra['enumerated_pairs'] = len([c for c in mine if 'codes' in c])
     res.extra['exhaustive'] = True
     if desc['tier'] == 'thorough':
         # random multi-site corruptions of the attribute block: only the safety part can be judged -
